@@ -1,1 +1,51 @@
-/- C09 — property theorems (stub: not built yet) -/
+import Rivaas.Spec.Lifecycle
+import Rivaas.Model.Lifecycle
+/-
+C09 — Application lifecycle is ordered and shutdown is graceful. Property theorems.
+-/
+namespace Rivaas.C09
+open Rivaas.Lifecycle
+
+/-- the code in /repo carries all five repairs -/
+theorem current_is_repaired : current = repaired := rfl
+
+/-! ### witnesses: the code as shipped breaks the oracle (K09a–e), the repaired code does not -/
+
+/-- K09a: the port is taken; as shipped the OnReady hook has run although the listen failed -/
+def wK09a : Scenario :=
+  { metrics := true, tracing := false, listen := .busy, starts := [.ok], readies := [.ok], nReload := 0,
+    shuts := [], stops := [.ok], reqs := [], rounds := [] }
+
+/-- K09b: the second OnStart hook fails; as shipped the metrics server keeps running -/
+def wK09b : Scenario :=
+  { metrics := true, tracing := true, listen := .ok, starts := [.ok, .err], readies := [.ok], nReload := 0,
+    shuts := [], stops := [.ok], reqs := [], rounds := [] }
+
+/-- K09c: a request never finishes; as shipped the drain timeout skips flush and OnStop -/
+def wK09c : Scenario :=
+  { metrics := true, tracing := true, listen := .ok, starts := [], readies := [.ok], nReload := 0,
+    shuts := [.ok, .ok], stops := [.ok], reqs := [.never], rounds := [] }
+
+/-- K09d: an OnReload hook panics on SIGHUP; as shipped the panic unwinds Start -/
+def wK09d : Scenario :=
+  { metrics := false, tracing := false, listen := .ok, starts := [], readies := [], nReload := 1,
+    shuts := [.ok], stops := [.ok], reqs := [], rounds := [⟨.hup, [.panic], none, false⟩] }
+
+/-- K09e: an OnShutdown hook uses up the budget; as shipped telemetry is not flushed before OnStop -/
+def wK09e : Scenario :=
+  { metrics := false, tracing := true, listen := .ok, starts := [], readies := [], nReload := 0,
+    shuts := [.block], stops := [.ok], reqs := [], rounds := [] }
+
+theorem asis_ready_before_listen : Spec.holds wK09a (run asShipped wK09a false) = false := by decide
+theorem asis_start_fail_leaks_metrics : Spec.holds wK09b (run asShipped wK09b false) = false := by decide
+theorem asis_drain_timeout_skips_stop : Spec.holds wK09c (run asShipped wK09c false) = false := by decide
+theorem asis_reload_panic_escapes : Spec.holds wK09d (run asShipped wK09d false) = false := by decide
+theorem asis_expired_budget_skips_flush : Spec.holds wK09e (run asShipped wK09e false) = false := by decide
+
+theorem repaired_witnesses :
+    Spec.holds wK09a (run repaired wK09a false) = true ∧ Spec.holds wK09b (run repaired wK09b false) = true ∧
+    Spec.holds wK09c (run repaired wK09c false) = true ∧ Spec.holds wK09d (run repaired wK09d false) = true ∧
+    Spec.holds wK09e (run repaired wK09e false) = true ∧ Spec.holds wK09e (run repaired wK09e true) = true := by
+  decide
+
+end Rivaas.C09
